@@ -49,7 +49,10 @@ def grow_write_rule(ctx, rid):
             rr.bad(ctx.finding(rid, grow, wc, "the result can be written before the results were collected", construct="write-before-collect"), "write after collect")
     for lp in loops:
         done = [(lp.id, b, l) for b, l in g.succ[lp.id] if l == "done"]
-        r = g.reachable(blocked_edges=done)
+        body_entries = [b for b, l in g.succ[lp.id] if l == "iter"]
+        r = set()
+        for be in body_entries:
+            r |= g.reachable(start=be, blocked_edges=done) | {be}
         if wn.id in r:
             rr.bad(ctx.finding(rid, grow, wc, "the result file can be written without the loop over all cases having finished normally (write reachable from inside the loop, a break, or a handler): a batch whose evaluation is incomplete is recorded as finished",
                                construct="write-not-after-loop"), "write only after loop exhaustion")
@@ -212,10 +215,17 @@ def progress_rule(ctx, rid):
     for n, c, nm in all_calls(ctx, gm):
         if nm == CROP + ".Crop.grow":
             v = arg(c, 0, "batch_ids")
-            if v is not None and norm(v) == "self.missing_results()":
+            vx = v
+            if isinstance(v, ast.Name):
+                d_ = single_def(gm, v.id)
+                vx = d_[1] if d_ and d_[1] is not None else v
+            if vx is not None and norm(vx) == "self.missing_results()":
                 okm = True
+            seen_v = norm(vx) if vx is not None else None
     if okm:
         rr.ok("grow_missing grows exactly self.missing_results()")
+    elif not [1 for n, c, nm in all_calls(ctx, gm) if nm == CROP + ".Crop.grow"]:
+        raise AnalysisError("idiom changed: grow_missing does not call Crop.grow")
     else:
         rr.bad(ctx.finding(rid, gm, gm.node, "grow_missing does not pass exactly self.missing_results() to grow", construct="grow-missing-arg"), "grow_missing")
     okg = False
@@ -224,7 +234,17 @@ def progress_rule(ctx, rid):
             fnarg = arg(c, 0, "fn")
             cb = arg(c, None, "combos")
             cs = arg(c, None, "constants")
-            if fnarg is not None and norm(fnarg) == "grow" and cb is not None and norm(cb) == "(('batch_number', batch_ids),)" and cs is not None and "'crop': self" in norm(cs):
+            for nm_ in ("cb", "cs"):
+                e_ = cb if nm_ == "cb" else cs
+                if isinstance(e_, ast.Name):
+                    d_ = single_def(gr, e_.id)
+                    if d_ and d_[1] is not None:
+                        if nm_ == "cb":
+                            cb = d_[1]
+                        else:
+                            cs = d_[1]
+            if fnarg is not None and norm(fnarg) == "grow" and cb is not None and isinstance(cb, ast.Tuple) and len(cb.elts) == 1 and isinstance(cb.elts[0], ast.Tuple) and len(cb.elts[0].elts) == 2 and isinstance(cb.elts[0].elts[0], ast.Constant) \
+                    and cb.elts[0].elts[0].value == "batch_number" and "batch_ids" in names_in(cb.elts[0].elts[1]) and cs is not None and "'crop': self" in norm(cs):
                 okg = True
     if okg:
         rr.ok("Crop.grow sweeps grow(batch_number) over exactly batch_ids with crop=self")
